@@ -96,14 +96,18 @@ def cmp_terms(I, st, a, b):
         if a.ty != b.ty and INT_BITS[a.ty] != INT_BITS[b.ty]:
             b = I.cast_int(b, a.ty)
         return I.binop('Lt', a, Sc(b.t, a.ty), st), I.binop('Eq', a, Sc(b.t, a.ty), st)
-    if isinstance(a, Agg) and isinstance(b, Agg) and len(a.fields) == len(b.fields):
-        # lexicographic
+    if isinstance(a, Agg) and isinstance(b, Agg) and (len(a.fields) == len(b.fields) or (a.ty in ('Vec', '[]', 'VecDeque') and b.ty in ('Vec', '[]', 'VecDeque'))):
+        # lexicographic; sequences of different lengths are unequal and ordered by the common prefix, then by length
         lt = z3.BoolVal(False)
         eq = z3.BoolVal(True)
         for x, y in zip(a.fields, b.fields):
             l, e = cmp_terms(I, st, x, y)
             lt = z3.Or(lt, z3.And(eq, l))
             eq = z3.And(eq, e)
+        if len(a.fields) != len(b.fields):
+            if len(a.fields) < len(b.fields):
+                lt = z3.Or(lt, eq)
+            eq = z3.BoolVal(False)
         return lt, eq
     if isinstance(a, Str) and isinstance(b, Str):
         return z3.BoolVal(a.s < b.s), z3.BoolVal(a.s == b.s)
